@@ -206,6 +206,10 @@ class Gen:
                 c['sweeten'] = [['enum_lower']]
             if rng.random() < 0.25:
                 c['str_mixin'] = True       # class E(str, enum.Enum)
+            if not c.get('savorize') and rng.random() < 0.3:
+                # a second name for one member (an enum alias)
+                c['aliases'] = {'zz_alias_' + name.lower(): rng.choice(
+                    c['members'])}
             self.classes.append(c)
             self.enums.append(name)
         for kind in ('str', 'userstring', 'stringlike'):
